@@ -230,12 +230,10 @@ def optChange (key : String) (val : JVal) : Option OptChange :=
 
 /-- `Watcher.set_opt`; `true` when applied, `false` when it raised -/
 def setOpt (wuid : Nat) (key : String) (val : JVal) : M Bool := do
-  let w ← getW wuid
   if key = "numprocesses" then
     let n : Int := match val with | .int i => i | .bool b => if b then 1 else 0 | _ => 0
-    let n := if n < 0 then 0 else n
-    if w.singleton && n > 1 then pure false else
-    setNp wuid n
+    let ok ← trySetNp wuid n
+    if !ok then pure false else
     notify wuid "updated" none
     pure true
   else
